@@ -16,6 +16,7 @@ import (
 	"strings"
 	"sync"
 	"sync/atomic"
+	"time"
 
 	_ "modernc.org/sqlite"
 	"shanhu.io/g/errcode"
@@ -60,6 +61,8 @@ type Run struct {
 }
 
 var errUser = errors.New("user callback failed")
+
+var spin int64
 
 func unhex(s string) []byte {
 	b, err := hex.DecodeString(s)
@@ -132,6 +135,11 @@ func apply(kv *pisces.KV, op Op) (e, msg string, b *string) {
 		var raw json.RawMessage
 		err = kv.Mutate(k, &raw, func(v interface{}) error {
 			p := v.(*json.RawMessage)
+			// user code inside the read-modify-write: stay there for a moment so
+			// that other goroutines really arrive while it is in progress
+			for i := 0; i < 3000; i++ {
+				atomic.AddInt64(&spin, 1)
+			}
 			nv, ok := incr([]byte(*p))
 			if !ok {
 				return errUser
@@ -306,6 +314,71 @@ func (e *env) reopen() *pisces.KV {
 	return pisces.NewOrderedSqlite3KV(e.db, "verifkv")
 }
 
+// forced runs the schedule "a reader is inside its walk while a Mutate runs
+// to completion, and then other calls are made, still during the walk":
+// goroutine 0 walks and, inside the callback of the first entry, waits for
+// goroutine 1's Mutate and then for goroutine 2's probes (each wait at most
+// 200 ms: on the memory backend writers are blocked by the read lock until the
+// walk ends, and simply run afterwards). Returns the Mutate and the probes as
+// a history.
+func forced(kv *pisces.KV, k, j string) []Call {
+	var clock int64
+	timed := func(t int, op Op) Call {
+		c := Call{T: t, Op: op}
+		c.Inv = atomic.AddInt64(&clock, 1)
+		c.E, c.Msg, c.B = apply(kv, op)
+		c.Ret = atomic.AddInt64(&clock, 1)
+		return c
+	}
+	inWalk := make(chan struct{})
+	g1done := make(chan struct{})
+	probe := make(chan struct{})
+	g2done := make(chan struct{})
+	var c1 Call
+	var probes []Call
+	go func() {
+		<-inWalk
+		c1 = timed(1, Op{Op: "incr", K: k})
+		close(g1done)
+	}()
+	go func() {
+		<-probe
+		for _, op := range []Op{{Op: "getbytes", K: k}, {Op: "append", K: j, V: h("7")}, {Op: "getbytes", K: j},
+			{Op: "incr", K: k}, {Op: "getbytes", K: k}} {
+			probes = append(probes, timed(2, op))
+		}
+		close(g2done)
+	}()
+	first := true
+	wait := func(ch chan struct{}) {
+		select {
+		case <-ch:
+		case <-time.After(200 * time.Millisecond):
+		}
+	}
+	it := &pisces.Iter{
+		Make: func() interface{} { return new(json.RawMessage) },
+		Do: func(cls string, v interface{}) error {
+			if first {
+				first = false
+				close(inWalk)
+				wait(g1done)
+				close(probe)
+				wait(g2done)
+			}
+			return nil
+		},
+	}
+	kv.Walk(it)
+	if first {
+		close(inWalk)
+		close(probe)
+	}
+	<-g1done
+	<-g2done
+	return append([]Call{c1}, probes...)
+}
+
 func main() {
 	seed := flag.Uint64("seed", 1, "seed")
 	nlin := flag.Int("lin", 150, "short mixed histories per backend")
@@ -357,6 +430,21 @@ func main() {
 		}
 	}
 
+	// corpus first: the forced schedule on which sqlite was seen to keep a
+	// refused transaction open
+	for _, backend := range []string{"mem", "sqlite"} {
+		for j := 0; j < 1; j++ {
+			kv := ev.fresh(backend)
+			init := []Op{{Op: "add", K: linKeys[0], V: h("0")}, {Op: "add", K: linKeys[1], V: h("9")}}
+			for _, op := range init {
+				apply(kv, op)
+			}
+			calls := forced(kv, linKeys[0], linKeys[1])
+			emit(Run{Stream: "forced", Backend: backend, Threads: 2, Init: init, Calls: calls,
+				Final: finals(kv, linKeys), Count: count(kv)})
+		}
+	}
+
 	for _, backend := range []string{"mem", "sqlite"} {
 		// short mixed histories for the linearizability check
 		for j := 0; j < *nlin; j++ {
@@ -371,7 +459,7 @@ func main() {
 			for _, op := range init {
 				apply(kv, op)
 			}
-			nt := 2 + r.Intn(3)
+			nt := 2 + r.Intn(2)
 			progs := make([][]Op, nt)
 			for t := range progs {
 				n := 1 + r.Intn(3)
